@@ -250,6 +250,18 @@ func (u *Unit) dispatchCall(st *State, call *ast.CallExpr, fn *types.Func, recv 
 		return v
 	}
 	c := u.eng.contractFor(key)
+	if c == nil && recv != nil && recv.T != nil {
+		// a method promoted from an embedded interface (DataForwarder embeds io.Closer): a contract may be attached to
+		// the static receiver interface instead
+		if n, ok := types.Unalias(recv.T).(*types.Named); ok && n.Obj().Pkg() != nil {
+			if _, isI := n.Underlying().(*types.Interface); isI {
+				if c2 := u.eng.contractFor("(" + n.Obj().Pkg().Path() + "." + n.Obj().Name() + ")." + fn.Name()); c2 != nil {
+					c = c2
+					key = "(" + n.Obj().Pkg().Path() + "." + n.Obj().Name() + ")." + fn.Name()
+				}
+			}
+		}
+	}
 	if c == nil {
 		c = u.eng.ioFallback(fn)
 	}
